@@ -66,6 +66,12 @@ def region_prefixes(rng):
         out.append([["begin", v1], ["begin", v2], ["end", ""]])    # inner closed: outer in force
         out.append([["begin", v1], ["end", ""], ["begin", v2]])    # sequential
         out.append([["begin", v1], ["end", ""]])                   # closed: default in force
+    # directives the preprocessor removes (not-taken conditional branch): they are not part of the text the parser
+    # sees and must not change the set in force ("hidden" events are rendered but are no region events)
+    for v1 in ("1364-1995", "1364-2001", "1800-2005"):
+        out.append([["hidden", v1]])
+        out.append([["begin", "1800-2009"], ["hidden", v1]])
+        out.append([["begin", v1], ["hidden_end", ""]])
     return out
 
 
@@ -74,13 +80,22 @@ def render_regions(evs, rng, noise=True):
     for e in evs:
         if noise and rng.random() < 0.3:
             s += rng.choice(["`celldefine\n", "`default_nettype none\n", "`timescale 1ns/1ps\n", "// c\n", "`resetall\n"])
-        s += ('`begin_keywords "%s"\n' % e[1]) if e[0] == "begin" else "`end_keywords\n"
+        if e[0] == "hidden":
+            s += '`ifdef KW_NEVER_DEFINED\n`begin_keywords "%s"\n`endif\n' % e[1]
+        elif e[0] == "hidden_end":
+            s += "`ifdef KW_NEVER_DEFINED\n`end_keywords\n`else\n`endif\n"
+        else:
+            s += ('`begin_keywords "%s"\n' % e[1]) if e[0] == "begin" else "`end_keywords\n"
     return s
+
+
+def visible(evs):
+    return [e for e in evs if e[0] in ("begin", "end")]
 
 
 def closing(evs):
     depth = 0
-    for e in evs:
+    for e in visible(evs):
         depth += 1 if e[0] == "begin" else (-1 if depth > 0 else 0)
     return "`end_keywords\n" * depth
 
@@ -113,7 +128,7 @@ def run(tier, seed):
                 nid += 1
                 text = render_regions(pre, rng) + tpl.replace("{W}", w) + "\n" + closing(pre)
                 cases.append({"id": "s%d" % nid, "calls": [{"fn": "two_step_sv_str", "path": "t.sv", "text": text}]})
-                meta["s%d" % nid] = {"kind": "sweep", "regions": pre, "word": w, "slot": slot, "text": text}
+                meta["s%d" % nid] = {"kind": "sweep", "regions": visible(pre), "word": w, "slot": slot, "text": text}
     for w in words + ["define", "include", "ifdef", "undef", "resetall", "line", "pragma", "timescale", "my_macro", "begin_keywords"]:
         nid += 1
         text = "`define %s 1\nmodule kw_host ; endmodule\n" % w
